@@ -314,6 +314,16 @@ func genUserMethods(r *RNG) *uCase {
 				m.def = append(m.def, "  "+m.params[0].Name+".to_s")
 				ret = append(ret, "String")
 			}
+			if r.Chance(1, 5) {
+				// rescue and ensure clauses of the method body itself
+				c2 := Pick(r, scal)
+				m.def = append(m.def, "rescue", "  "+nLit(c2))
+				ret = append(ret, c2)
+				if r.Bool() {
+					m.def = append(m.def, "ensure", "  "+nLit(Pick(r, scal)))
+				}
+				feats["method-level-rescue"] = true
+			}
 			m.ret = dedup(sortedCopy(ret))
 		}
 		m.def = append(m.def, "end")
@@ -674,7 +684,7 @@ func init() {
 			return judgeUser(c, s.BlackBox(), &uc)
 		},
 		Run: func(c *CheckCtx) {
-			c.rule = "generated programs: 1-4 user methods (top level, instance methods and class methods of a class) with positional, default and keyword parameters; 1-5 call sites each with literal or union-variable arguments, before the definition (top-level methods), after it, and inside other methods that are themselves called; bodies probe every parameter with dbtp, may contain `p.to_s` (every class answers) or `p.zz_nope` (none answers), an explicit return in one of nine positions (modifier if/unless, inside if, bare, inside a block, a while, a case), and end in a begin/rescue/ensure expression, a literal, a parameter or `p.to_s`; run with -i. Oracle: each parameter probe and the -i signature hint cover the union of the classes passed at all call sites (and contain no class that is neither passed nor the default's); each call's result equals the union of the body result and explicit return values; no diagnostic on `p.to_s`, a diagnostic on `p.zz_nope`. distinct_nontrivial = distinct programs"
+			c.rule = "generated programs: 1-4 user methods (top level, instance methods and class methods of a class) with positional, default and keyword parameters; 1-5 call sites each with literal or union-variable arguments, before the definition (top-level methods), after it, and inside other methods that are themselves called; bodies probe every parameter with dbtp, may contain `p.to_s` (every class answers) or `p.zz_nope` (none answers), an explicit return in one of nine positions (modifier if/unless, inside if, bare, inside a block, a while, a case), and end in a begin/rescue/ensure expression or have rescue/ensure clauses of their own, a literal, a parameter or `p.to_s`; run with -i. Oracle: each parameter probe and the -i signature hint cover the union of the classes passed at all call sites (and contain no class that is neither passed nor the default's); each call's result equals the union of the body result and explicit return values; no diagnostic on `p.to_s`, a diagnostic on `p.zz_nope`. distinct_nontrivial = distinct programs"
 			c.assumptions = []string{"a defaulted parameter's type includes its default literal's class", "methods whose body contains the failing operation are not judged for their return type (recovery ends the body)"}
 			r := c.RNG.Sub(15)
 			n := c.N(300, 8000)
